@@ -52,6 +52,7 @@ def decode_text(data: bytes):
 TARGETS = {
     "expressions": ("vfw.props.c10", "check_expression", decode_expression, ["schemathesis.specs.openapi.expressions", "schemathesis.core.transforms"]),
     "sanitize_url": ("vfw.props.c15", "check_url", lambda data: __import__("vfw.props.c15", fromlist=["decode_url"]).decode_url(data), ["schemathesis.core.output.sanitization"]),
+    "media_types": ("vfw.props.c04", "check_media_type", lambda data: __import__("vfw.props.c04", fromlist=["decode_media_type"]).decode_media_type(data), ["schemathesis.core.media_types"]),
     "yaml_scalar": ("vfw.props.c16", "check_yaml_scalar", decode_text, ["schemathesis.cli.commands.run.handlers.cassettes"]),
 }
 
